@@ -8,7 +8,11 @@
 // Optional history of the Builder object before the Add sequence (the model ignores it: by the
 // documentation of Initialise a re-initialised Builder is a fresh one): h=1 Initialise called
 // again (twice); h=2 the words q are added, Finish, Initialise; h=3 the words q are added (no
-// Finish), Initialise; h=4 as h=2 and the first Dawg is kept and must not change.
+// Finish), Initialise; h=4 as h=2 and the first Dawg is kept and must not change; h=5 a second
+// Builder is alive at the same time and is fed the words q interleaved call by call.
+// Every Add argument is handed over in caller-owned storage that is overwritten right after the
+// call (one read buffer shared by all words when the number of tokens is even, a slice of exact
+// size per word when it is odd); New gets copies that are overwritten before its result is read.
 package main
 
 import (
@@ -265,7 +269,11 @@ func exec(line string) hx.Result {
 		db.Initialise()
 	case 2, 3, 4:
 		for _, w := range c.pre {
-			db.Add(append([]byte{}, w...))
+			a := append([]byte{}, w...)
+			db.Add(a)
+			for i := range a {
+				a[i] = 0xff
+			}
 		}
 		if c.hist != 3 {
 			f, err := db.Finish()
@@ -277,26 +285,102 @@ func exec(line string) hx.Result {
 		}
 		db.Initialise()
 	}
+	// caller-owned storage of the Add arguments: overwritten after every call, accepted or not
+	maxTok := 0
+	for _, w := range append(append([][]byte{}, c.tokens...), c.pre...) {
+		if len(w) > maxTok {
+			maxTok = len(w)
+		}
+	}
+	shared := make([]byte, maxTok+16)
+	sharedMode := len(c.tokens)%2 == 0
+	scribble := byte(0xff)
+	hand := func(w []byte) []byte {
+		if sharedMode {
+			copy(shared, w)
+			return shared[:len(w)]
+		}
+		a := make([]byte, len(w))
+		copy(a, w)
+		return a
+	}
+	spoil := func(a []byte) {
+		a = a[:cap(a)]
+		for i := range a {
+			switch scribble % 3 {
+			case 0:
+				a[i] = 0
+			case 1:
+				a[i] = 0xff
+			default:
+				a[i] ^= 0x5a
+			}
+		}
+		scribble++
+	}
+	// h=5: a second live Builder, fed call by call between the Adds of the first
+	var db2 *dawg.Builder
+	var kept2 [][]byte
+	add2 := func(w []byte) {
+		a := hand(w)
+		err := db2.Add(a)
+		spoil(a)
+		above := len(kept2) == 0 || bytes.Compare(kept2[len(kept2)-1], w) < 0
+		if (err == nil) != above {
+			viol = append(viol, hx.Fail("C12:second-builder-accept", "the second live Builder answered %v to Add(%x) after %d accepted words", err, w, len(kept2)))
+		}
+		if err == nil {
+			kept2 = append(kept2, w)
+		}
+	}
+	if c.hist == 5 {
+		db2 = new(dawg.Builder)
+		if c.zero { // the other way round than the first Builder
+			db2.Initialise()
+		}
+	}
 	var acc strings.Builder
 	var accepted [][]byte
-	for _, w := range c.tokens {
-		arg := append([]byte{}, w...)
+	for k, w := range c.tokens {
+		arg := hand(w)
 		err := db.Add(arg)
+		spoil(arg) // the builder must keep its own copies
 		if err == nil {
 			acc.WriteByte('1')
 			accepted = append(accepted, w)
-			// the builder must keep its own copy of the previous word
-			for i := range arg {
-				arg[i] ^= 0xff
-			}
 		} else {
 			acc.WriteByte('0')
+		}
+		if db2 != nil && k < len(c.pre) {
+			add2(c.pre[k])
+		}
+	}
+	if db2 != nil {
+		for k := len(c.tokens); k < len(c.pre); k++ {
+			add2(c.pre[k])
 		}
 	}
 	_, _, _, reg, lastID, _ := db.VerifBuilderState()
 	d, err := db.Finish()
 	if err != nil || d == nil {
 		return hx.Result{Obs: "finish-error"}
+	}
+	dumpAtFinish := dumpString(d, true)
+	if db2 != nil {
+		e, err := db2.Finish()
+		if err != nil || e == nil {
+			viol = append(viol, hx.Fail("C12:second-builder-finish", "Finish of the second live Builder failed: %v", err))
+		} else {
+			ew, _ := e.Search()
+			same := len(ew) == len(kept2)
+			for i := 0; same && i < len(ew); i++ {
+				same = bytes.Equal(ew[i], kept2[i])
+			}
+			mn2, _ := minimalSizeTrie(kept2)
+			if !same || e.NumberOfWords() != len(kept2) || e.VerifNodeCount() != mn2 || len(e.VerifDump()) != mn2 {
+				viol = append(viol, hx.Fail("C12:second-builder-result", "the second live Builder built %d words on %d nodes, expected the %d accepted words on %d nodes", len(ew), e.VerifNodeCount(), len(kept2), mn2))
+			}
+		}
 	}
 	// oracle: accepted words are strictly increasing (so the rejections were exactly the bad ones)
 	for i := 1; i < len(accepted); i++ {
@@ -361,15 +445,33 @@ func exec(line string) hx.Result {
 		}
 	}
 	// oracle: rejected additions do not change what is built
-	if d2, err2 := dawg.New(accepted); err2 != nil {
+	cp := make([][]byte, len(accepted))
+	for i, w := range accepted {
+		cp[i] = append([]byte{}, w...)
+	}
+	d2, err2 := dawg.New(cp)
+	for i := range cp { // the caller re-uses its word list
+		for j := range cp[i] {
+			cp[i][j] = 0xff
+		}
+		cp[i] = nil
+	}
+	if err2 != nil {
 		viol = append(viol, hx.Fail("C12:new-error", "New on the accepted words failed: %v", err2))
 	} else if dumpString(d2, true) != dumpString(d, true) {
 		viol = append(viol, hx.Fail("C12:rejected-add-changed-result", "automaton differs from New(accepted words)"))
 	}
 	probes := append(allProbes(c.alpha, c.plen), c.extra...)
+	nwBefore := d.NumberOfWords()
 	lk := make([]string, len(probes))
+	type lres struct {
+		r  int
+		ok bool
+	}
+	firstPass := make([]lres, len(probes))
 	for i, p := range probes {
 		r, ok := d.Lookup(p)
+		firstPass[i] = lres{r, ok}
 		// oracle: rank in the sorted accepted list
 		j := sort.Search(len(accepted), func(k int) bool { return bytes.Compare(accepted[k], p) >= 0 })
 		member := j < len(accepted) && bytes.Equal(accepted[j], p)
@@ -381,6 +483,28 @@ func exec(line string) hx.Result {
 		} else {
 			lk[i] = "-"
 		}
+	}
+	// observers called again, in the opposite order: same answers, automaton untouched
+	for i := len(probes) - 1; i >= 0; i-- {
+		pc := append([]byte{}, probes[i]...)
+		r, ok := d.Lookup(pc)
+		if ok != firstPass[i].ok || (ok && r != firstPass[i].r) {
+			viol = append(viol, hx.Fail("C12:lookup-unstable", "Lookup(%x) = (%d,%v) the second time, (%d,%v) the first", probes[i], r, ok, firstPass[i].r, firstPass[i].ok))
+			break
+		}
+		if !bytes.Equal(pc, probes[i]) {
+			viol = append(viol, hx.Fail("C12:lookup-writes-argument", "Lookup changed its argument %x", probes[i]))
+			break
+		}
+	}
+	if d.NumberOfWords() != nwBefore {
+		viol = append(viol, hx.Fail("C12:numberofwords-unstable", "NumberOfWords %d before the lookups, %d after", nwBefore, d.NumberOfWords()))
+	}
+	if dumpString(d, true) != dumpAtFinish {
+		viol = append(viol, hx.Fail("C12:dawg-changed-later", "the automaton changed after Finish (New, Lookup, Search, NumberOfWords on it or on other automata)"))
+	}
+	if first != nil && dumpString(first, true) != firstDump {
+		viol = append(viol, hx.Fail("C12:history-first-dawg-changed", "the automaton of the first build changed later"))
 	}
 	obs := fmt.Sprintf("acc=%s words=%s ranks=%s nw=%d nodes=%d lk=%s ## reg=%s lastid=%d dump=%s",
 		acc.String(), strings.Join(ws, ","), hx.Ints(ids), d.NumberOfWords(), nodes, strings.Join(lk, ","),
@@ -633,7 +757,7 @@ func gen(g *hx.Gen) {
 	emit(tcase{alpha: []byte("abl"), plen: 3, tokens: tw, extra: [][]byte{[]byte("ab"), []byte("hello"), []byte("abjection"), []byte("ablations")}})
 	// Builders with a past: every history kind x small first lives x small second lists
 	lists := [][][]byte{{}, {{}}, {{}, []byte("a")}, {[]byte("a")}, {[]byte("a"), []byte("b")}, {[]byte("b")}, {[]byte("a"), {}}}
-	for h := 1; h <= 4; h++ {
+	for h := 1; h <= 5; h++ {
 		for _, pre := range lists {
 			if h == 1 && len(pre) > 0 {
 				continue
@@ -645,7 +769,7 @@ func gen(g *hx.Gen) {
 			}
 		}
 	}
-	g.Exhaustive("Builder histories (Initialise twice; build + Finish + Initialise; Adds + Initialise; the same keeping the first Dawg) x 7 first lives x 7 Add sequences over {\"\", a, b} x zero/initialised Builder")
+	g.Exhaustive("Builder histories (Initialise twice; build + Finish + Initialise; Adds + Initialise; the same keeping the first Dawg; a second Builder alive and fed call by call) x 7 first lives x 7 Add sequences over {\"\", a, b} x zero/initialised Builder")
 	// exhaustive: every subset of the 15 words of length <= 3 over {a,b}
 	all := sortDedup(allProbes(ab, 3))
 	subset := func(mask int) [][]byte {
@@ -779,7 +903,16 @@ func byteAlphabet(r *hx.Rng) []byte {
 	digits := []byte("0123456789")
 	seps := []byte(",.:;|/-+_ #=\\\"'()[]{}<>%&*!?@^~`$")
 	ctrl := []byte{0x00, 0x01, 0x09, 0x0a, 0x0d, 0x1b, 0x20, 0x7f, 0x80, 0xfe, 0xff}
-	switch r.Intn(10) {
+	switch r.Intn(11) {
+	case 10: // bytes congruent modulo 32, 64 or 128 (and the same letter in both cases)
+		m := []int{32, 64, 128}[r.Intn(3)]
+		base := r.Intn(m)
+		var a []byte
+		for v := base; v < 256; v += m {
+			a = append(a, byte(v))
+		}
+		a = pickBytes(r, a, 2, 5)
+		return mergeBytes(a, pickBytes(r, []byte("aAzZ0"), 0, 2))
 	case 0:
 		return []byte("123")
 	case 1:
@@ -1172,7 +1305,7 @@ func gridWords(r *hx.Rng, alpha []byte, K, nl, maxWords int) [][]byte {
 // abandoned) build chosen relative to the new list -- its own words, its first or last word,
 // the empty word, a word above everything, an unrelated set.
 func withHistory(r *hx.Rng, c tcase, ws [][]byte, alpha []byte) tcase {
-	c.hist = []int{1, 2, 2, 3, 3, 4}[r.Intn(6)]
+	c.hist = []int{1, 2, 2, 3, 3, 4, 4, 5, 5}[r.Intn(9)]
 	if c.hist == 1 {
 		return c
 	}
@@ -1210,6 +1343,146 @@ func withHistory(r *hx.Rng, c tcase, ws [][]byte, alpha []byte) tcase {
 	return c
 }
 
+// extremeProbes asks at the places the automaton itself makes extreme, read off the word list:
+// the longest word (its proper prefixes around the size steps, itself, itself continued by 1,
+// 255, 256 and sometimes thousands of letters), the prefix with the most continuations (each
+// byte just outside its label set: below the smallest, above the largest, in a gap, 0x00, 0xff),
+// the first and the last word with a byte that occurs in no word, the empty probe.
+func extremeProbes(r *hx.Rng, ws [][]byte) [][]byte {
+	ps := [][]byte{{}}
+	if len(ws) == 0 {
+		return append(ps, []byte{0x00}, []byte{0xff}, bytes.Repeat([]byte{'a'}, 300))
+	}
+	var occurs [256]bool
+	long := ws[0]
+	for _, w := range ws {
+		if len(w) > len(long) {
+			long = w
+		}
+		for _, b := range w {
+			occurs[b] = true
+		}
+	}
+	var outside []byte
+	for v := 0; v < 256; v++ {
+		if !occurs[v] {
+			outside = append(outside, byte(v))
+		}
+	}
+	fill := byte('a')
+	if len(long) > 0 {
+		fill = long[len(long)-1]
+	}
+	for _, k := range []int{1, 255, 256} {
+		ps = append(ps, cat(long, bytes.Repeat([]byte{fill}, k)))
+	}
+	if r.Chance(1, 8) {
+		ps = append(ps, cat(long, bytes.Repeat([]byte{fill}, []int{1023, 4096}[r.Intn(2)])))
+	}
+	for _, k := range []int{7, 8, 15, 16, 31, 32, 63, 64, 65, 127, 128, 255, 256, 257} {
+		if k < len(long) {
+			ps = append(ps, long[:k])
+		}
+	}
+	// the widest prefix
+	next := map[string]*[256]bool{}
+	best, bestN := "", 0
+	count := map[string]int{}
+	for _, w := range ws {
+		for i := 0; i < len(w) && i < 6; i++ {
+			k := string(w[:i])
+			m := next[k]
+			if m == nil {
+				m = new([256]bool)
+				next[k] = m
+			}
+			if !m[w[i]] {
+				m[w[i]] = true
+				count[k]++
+				if count[k] > bestN {
+					best, bestN = k, count[k]
+				}
+			}
+		}
+	}
+	if m := next[best]; m != nil {
+		lo, hi := -1, -1
+		for v := 0; v < 256; v++ {
+			if m[v] {
+				if lo < 0 {
+					lo = v
+				}
+				hi = v
+			}
+		}
+		cand := []int{0x00, 0xff, lo - 1, hi + 1, lo, hi}
+		for v := lo + 1; v < hi; v++ {
+			if !m[v] {
+				cand = append(cand, v)
+				break
+			}
+		}
+		for v := hi - 1; v > lo; v-- {
+			if !m[v] {
+				cand = append(cand, v)
+				break
+			}
+		}
+		for _, v := range cand {
+			if v >= 0 && v < 256 {
+				ps = append(ps, cat([]byte(best), []byte{byte(v)}), cat([]byte(best), []byte{byte(v), byte(v)}))
+			}
+		}
+	}
+	if len(outside) > 0 {
+		o := outside[r.Intn(len(outside))]
+		for _, w := range [][]byte{ws[0], ws[len(ws)-1], long} {
+			ps = append(ps, cat(w, []byte{o}), cat([]byte{o}, w))
+			if len(w) > 0 {
+				x := append([]byte{}, w...)
+				x[len(x)-1] = o
+				y := append([]byte{}, w...)
+				y[0] = o
+				ps = append(ps, x, y)
+			}
+		}
+	}
+	return ps
+}
+
+// asymWords puts one (or two) very long words among n short ones: first, in the middle or last
+// in the order, continuing a short word, ending in a short word, sharing the long tail.
+func asymWords(r *hx.Rng, alpha []byte, n, L int) [][]byte {
+	ws := manyWords(r, alpha, n)
+	long := randWordLen(r, alpha, L)
+	switch r.Intn(4) {
+	case 0: // first in the order (after its own prefixes)
+		for i := range long {
+			if i < L/2 || r.Bool() {
+				long[i] = alpha[0]
+			}
+		}
+	case 1: // last
+		for i := 0; i < 3 && i < L; i++ {
+			long[i] = alpha[len(alpha)-1]
+		}
+	case 2: // continues a short word and ends in one
+		if len(ws) > 1 {
+			a, b := ws[r.Intn(len(ws))], ws[r.Intn(len(ws))]
+			copy(long, a)
+			if len(b) < L {
+				copy(long[L-len(b):], b)
+			}
+		}
+	}
+	ws = append(ws, long)
+	if r.Bool() { // a second long word with the same tail, far away in the order
+		h := randWordLen(r, alpha, r.Range(1, 2))
+		ws = append(ws, cat(h, long[len(long)/4:]))
+	}
+	return sortDedup(ws)
+}
+
 func genRound3(g *hx.Gen, emit func(tcase)) {
 	r := g.Rng
 	finish := func(ws [][]byte, alpha []byte, bad bool) {
@@ -1225,9 +1498,9 @@ func genRound3(g *hx.Gen, emit func(tcase)) {
 		if len(pa) <= 2 {
 			pn = 3
 		}
-		ex := extraProbes(r, ws, alpha)
+		ex := append(extremeProbes(r, ws), extraProbes(r, ws, alpha)...)
 		for i, total := 0, 0; i < len(ex); i++ { // keep the case line short (it is also a command-line argument on replay)
-			if total += len(ex[i]); total > 12000 {
+			if total += len(ex[i]); total > 16000 {
 				ex = ex[:i]
 				break
 			}
@@ -1260,6 +1533,22 @@ func genRound3(g *hx.Gen, emit func(tcase)) {
 			K = []int{4, 5, 6}[r.Intn(3)]
 		}
 		finish(gridWords(r, alpha, K, nl, []int{100, 200, 290, 290}[r.Intn(4)]), alpha, r.Chance(1, 6))
+	}
+	// one or two very long words among many short ones
+	for round := g.Pick(1, 12); round > 0; round-- {
+		for _, L := range []int{63, 64, 65, 127, 128, 129, 255, 256, 257, 400} {
+			for _, n := range []int{30, 120, 300} {
+				alpha := byteAlphabet(r)
+				finish(asymWords(r, alpha, n, L), alpha, r.Chance(1, 6))
+			}
+		}
+	}
+	// word counts around 512 and 1024
+	for round := g.Pick(1, 6); round > 0; round-- {
+		for _, n := range []int{511, 512, 513, 1023, 1024, 1025} {
+			alpha := byteAlphabet(r)
+			finish(manyWords(r, alpha, n), alpha, r.Chance(1, 6))
+		}
 	}
 	// deep branches
 	for round := g.Pick(2, 16); round > 0; round-- {
